@@ -8,10 +8,16 @@
 EXTENDS Controller, Json
 
 CONSTANTS ScenLen, Seeds, StartSlots, MaxHeads,
-          Directed      \* TRUE: only start-up, head events, reorgs and delayed replies (search for overlapping refreshes)
+          MaxHolds,     \* bound on the number of times an interface starts / stops delaying
+          Stimuli,      \* which stimuli may occur (event names; "Unhold" = an interface stops delaying)
+          Focus,        \* TRUE: the timer starts duty jobs only while a refresh is under way (search for job starts inside a refresh)
+          Disjoint      \* TRUE: no two goroutines at work on one duty kind and epoch at a time (overlapping refreshes
+                        \* are the open finding's ground: kept out of the families that look for anything else)
 
-VARIABLES hist, nHead
-svars == <<vars, hist, nHead>>
+VARIABLES hist, nHead, nHold,
+          newer,        \* ids of tasks waiting for a duty reply that a later task of the same kind and epoch has overtaken
+          ins           \* number of duty jobs that started, and of clock ticks, while a refresh (covering the job's name) was under way
+svars == <<vars, hist, nHead, nHold, newer, ins>>
 
 Mix(a, b) == ((a * 31 + b) * 1103 + 12345) % 30011
 R(seed, tag, a, b, c) == Mix(Mix(Mix(Mix(seed, tag), a), b), c)
@@ -55,23 +61,47 @@ SInit ==
     /\ Init
     /\ now \in StartSlots
     /\ hist = <<[ev |-> "Reset", cfg |-> cfg, oracle |-> oracle, now |-> now]>>
-    /\ nHead = 0
+    /\ nHead = 0 /\ nHold = 0 /\ newer = {}
+    /\ ins = 0
 
 H(e) == hist' = Append(hist, e)
+On(e) == e \in Stimuli
+
+\* duty jobs started in this step while a refresh that covers their name was between its first and its last call
+StartedInside ==
+    \E x \in DOMAIN done' :
+        /\ done'[x] > Get(done, x, 0)
+        /\ \E t \in tasks : IsRefresh(t) /\ <<x.k, x.n>> \in CancelNames(t)
+RefreshUnderWay == \E t \in tasks : IsRefresh(t)
+
+ReleaseEv(c, late) == [ev |-> "Release", k |-> c[1], n |-> c[2], ver |-> c[3], jk |-> c[4], late |-> late]
 
 SNext ==
     /\ Len(hist) <= ScenLen
-    /\ \/ \E w \in BOOLEAN : Start(w) /\ H([ev |-> "Start", w |-> w]) /\ UNCHANGED nHead
-       \/ ~Directed /\ Crash /\ H([ev |-> "Crash"]) /\ UNCHANGED nHead
-       \/ ~Directed /\ Advance /\ H([ev |-> "Advance"]) /\ nHead' = 0
-       \/ ~Directed /\ EpochTick /\ H([ev |-> "EpochTick"]) /\ UNCHANGED nHead
-       \/ \E b \in 0..(MaxEpoch + 1) : Reorg(b) /\ H([ev |-> "Reorg", b |-> b]) /\ UNCHANGED nHead
-       \/ \E o \in BOOLEAN : HeadEvent(o) /\ nHead < MaxHeads /\ nHead' = nHead + 1 /\ H([ev |-> "HeadEvent"])
-       \/ ~Directed /\ \E nm \in DOMAIN jobs, h \in BOOLEAN : Fire(nm, h) /\ H([ev |-> "Fire", k |-> nm[1], n |-> nm[2], h |-> h]) /\ UNCHANGED nHead
+    /\ \/ On("Start") /\ \E w \in BOOLEAN : Start(w) /\ H([ev |-> "Start", w |-> w]) /\ UNCHANGED nHead
+       \/ On("Crash") /\ Crash /\ H([ev |-> "Crash"]) /\ UNCHANGED nHead
+       \/ On("Advance") /\ Advance /\ H([ev |-> "Advance"]) /\ nHead' = 0
+       \/ On("EpochTick") /\ EpochTick /\ H([ev |-> "EpochTick"]) /\ UNCHANGED nHead
+       \/ On("Reorg") /\ \E b \in 0..(MaxEpoch + 1) : Reorg(b) /\ H([ev |-> "Reorg", b |-> b]) /\ UNCHANGED nHead
+       \/ On("HeadEvent") /\ \E o \in BOOLEAN : HeadEvent(o) /\ nHead < MaxHeads /\ nHead' = nHead + 1 /\ H([ev |-> "HeadEvent"])
+       \/ On("Fire") /\ \E nm \in DOMAIN jobs, h \in BOOLEAN :
+                /\ Focus => (nm[1] # "prepepoch" /\ RefreshUnderWay)
+                /\ Fire(nm, h) /\ H([ev |-> "Fire", k |-> nm[1], n |-> nm[2], h |-> h]) /\ UNCHANGED nHead
        \/ Internal /\ UNCHANGED <<hist, nHead>>
-       \/ \E k \in {"att", "prop"}, on \in BOOLEAN : (Directed => on) /\ Hold(k, on) /\ H([ev |-> "Hold", k |-> k, on |-> on]) /\ UNCHANGED nHead
-       \/ \E t \in tasks : Release(t) /\ H([ev |-> "Release", k |-> t.k, n |-> t.key, ver |-> t.ver,
-                                                       late |-> (fetched[<<t.k, t.key>>] # t.ver)]) /\ UNCHANGED nHead
+       \/ \E k \in Gates, on \in BOOLEAN : On(IF on THEN "Hold" ELSE "Unhold") /\ nHold < MaxHolds /\ Hold(k, on) /\ H([ev |-> "Hold", k |-> k, on |-> on]) /\ nHold' = nHold + 1 /\ UNCHANGED nHead
+       \/ On("Release") /\ \E t \in tasks :
+                \/ /\ Release(t)
+                   /\ \E c \in ParkedCalls(t) : H(ReleaseEv(c, t.st = "held" /\ (fetched[<<t.k, t.key>>] # t.ver \/ t.id \in newer)))
+                   /\ UNCHANGED nHead
+                \/ /\ t.st = "sched"
+                   /\ \E d \in t.duties : ReleaseSched(t, d) /\ H(ReleaseEv(<<"sched", d.slot, 0, d.jk>>, FALSE))
+                   /\ UNCHANGED nHead
+    /\ ins' = IF StartedInside \/ (now' # now /\ RefreshUnderWay) THEN ins + 1 ELSE ins
+    /\ (hist' = hist \/ hist'[Len(hist')].ev # "Hold") => UNCHANGED nHold
+    /\ LET spawned == {u \in tasks' : \A x \in tasks : x.id # u.id}
+           waiting == {u \in tasks' : u.st = "held"}
+       IN newer' = {u.id : u \in {w \in waiting : w.id \in newer \/ \E n \in spawned : n.k = w.k /\ n.key = w.key}}
+    /\ Disjoint => NoOverlap'
 
 \* configuration families (the cfg file picks one with Cfgs <- ...)
 CfgsSmall == {[p |-> 2, d |-> 12, ep |-> 2, prep |-> 1, fork |-> f, ft |-> t, attd |-> 4, propd |-> pd, syncd |-> 4, vals |-> {1, 2}] :
@@ -83,6 +113,8 @@ CfgsWide == {[p |-> 3, d |-> 6, ep |-> 4, prep |-> 2, fork |-> f, ft |-> t, attd
             \cup {[p |-> 1, d |-> 2, ep |-> 8, prep |-> 5, fork |-> f, ft |-> FALSE, attd |-> 1, propd |-> 0, syncd |-> 1, vals |-> {1, 2}] :
                  f \in {0, 2, 9}}
 
+CfgsSteps == {[p |-> 2, d |-> 12, ep |-> 2, prep |-> 1, fork |-> 9, ft |-> t, attd |-> 4, propd |-> 4, syncd |-> 4, vals |-> {1, 2}] :
+                 t \in BOOLEAN}
 CfgsGatedOne == {[p |-> 2, d |-> 12, ep |-> 2, prep |-> 1, fork |-> 0, ft |-> FALSE, attd |-> 4, propd |-> 0, syncd |-> 4, vals |-> {1, 2}]}
 CfgsGated == {[p |-> 2, d |-> 12, ep |-> 2, prep |-> 1, fork |-> 0, ft |-> FALSE, attd |-> 4, propd |-> pd, syncd |-> 4, vals |-> {1, 2}] :
                  pd \in {0, 4}}
@@ -96,6 +128,11 @@ SSpec == SInit /\ [][SNext]_svars
 SeedOracles(c) == {OracleOf(c, s) : s \in Seeds}
 
 Emit == (Len(hist) = ScenLen + 1 /\ Settled) => PrintT(ToJson(hist))
+
+(* Job starts inside a refresh: a behaviour in which a duty job started (timer, fast track)     *)
+(* between two calls of a refresh of its epoch, or the clock moved on to the next slot between  *)
+(* two calls of a refresh, run to its end, is written out.                                      *)
+EmitInside == (up /\ Quiescent /\ ins > 0) => PrintT(ToJson(hist))
 
 (* Design-level counterexamples as scenarios: a behaviour at whose end a job made from an older  *)
 (* reply has survived (overlapping refreshes) is written out, to be replayed on the real code.  *)
